@@ -57,6 +57,15 @@ func (g *ggen) dev(name string) bool {
 	return false
 }
 
+// relabel: the deviation drawn last (the devs entry at index i, if one was appended since) turned out to be of
+// another class than its name says (e.g. a count "overflow" whose sum still fits): the labels of gramLabel
+// (grammarlabel.go) must say what the field IS, not what the generator tried
+func (g *ggen) relabel(i int, name string) {
+	if i < len(g.devs) {
+		g.devs[i] = name
+	}
+}
+
 func gMinW(n uint64) int {
 	switch {
 	case n < 24:
@@ -501,8 +510,12 @@ func (g *ggen) singleElem(depth int) []byte {
 
 func (g *ggen) digests(nd int, single bool) []byte {
 	dl := nd * 8
+	at := len(g.devs)
 	if g.dev("digest-len") {
 		dl = []int{dl + 1, dl + 7, dl + 8, dl + 16, (dl + 64 - 8) % 64, dl + 4}[g.r.Intn(6)]
+		if dl%8 == 0 {
+			g.relabel(at, "digest-len-8n") // whole digests: another COUNT of digests, not a broken length
+		}
 	}
 	c := make([]byte, dl)
 	for i := range c {
@@ -571,6 +584,7 @@ func (g *ggen) elements(depth int, level int) []byte {
 			o = append(o, g.elements(depth+1, level+1)...)
 		case k < 9:
 			o = append(o, g.tag("external-group", 254)...)
+			at := len(g.devs)
 			if g.dev("external-group-not-slabid") {
 				switch g.r.Intn(3) {
 				case 0:
@@ -578,6 +592,7 @@ func (g *ggen) elements(depth int, level int) []byte {
 				case 1:
 					o = append(o, append(g.tag("some", 165), g.slabIDStorable()...)...)
 				default:
+					g.relabel(at, "external-group-any-storable") // (may well be a slab ID)
 					o = append(o, g.storable(depth+1)...)
 				}
 			} else {
@@ -842,7 +857,9 @@ func (g *ggen) slab() []byte {
 		n := g.r.Intn(5)
 		// "data is too short for array element head": the head must leave at least three bytes
 		var hd []byte
-		if g.dev("elem-head-short") {
+		at := len(g.devs)
+		short := g.dev("elem-head-short")
+		if short {
 			hd = gHeadW(4, uint64(n), gMinW(uint64(n)))
 			if g.p(0.5) {
 				hd, n = []byte{0x80}, 0
@@ -852,10 +869,19 @@ func (g *ggen) slab() []byte {
 			}
 		} else {
 			hd = g.listHead("array-elems", n)
+			if len(g.devs) == at && n <= 1 && len(hd) < 3 {
+				// a VALID choice never leaves an element area below three bytes (no element, or a single one-byte
+				// element, behind a one- or two-byte head: that is the deviation elem-head-short)
+				hd = []byte{0x99, 0, byte(n)}
+			}
 		}
+		area := len(out)
 		out = append(out, hd...)
 		for i := 0; i < n; i++ {
 			out = append(out, g.storable(0)...)
+		}
+		if short && len(out)-area >= 3 {
+			g.relabel(at, "elem-head-minimal") // head in minimal form, the area has its three bytes: valid
 		}
 		return finish(out)
 	case kind < 7: // map data / collision group
@@ -896,7 +922,14 @@ func (g *ggen) slab() []byte {
 		if g.dev("child-count") {
 			announced = []int{n + 1, n + 2, (n + 3) % 4, 65535}[g.r.Intn(4)]
 		}
+		at := len(g.devs)
 		overflow := g.dev("count-sum-overflow")
+		var countSum uint64
+		defer func() {
+			if overflow && countSum <= 1<<32-1 {
+				g.relabel(at, "count-sum-boundary") // counts at 2^32-1 / 2^32-2 whose sum still fits: valid
+			}
+		}()
 		if version == 0 {
 			out = append(out, byte(announced>>8), byte(announced))
 			for i := 0; i < n; i++ {
@@ -906,6 +939,7 @@ func (g *ggen) slab() []byte {
 				if overflow {
 					cnt = 1<<32 - 1 - uint32(g.r.Intn(2))
 				}
+				countSum += uint64(cnt)
 				binary.BigEndian.PutUint32(c, cnt)
 				binary.BigEndian.PutUint32(c[4:], uint32(g.randUint()))
 				out = append(out, c...)
@@ -920,6 +954,7 @@ func (g *ggen) slab() []byte {
 				if overflow {
 					cnt = 1<<32 - 1 - uint32(g.r.Intn(2))
 				}
+				countSum += uint64(cnt)
 				binary.BigEndian.PutUint32(c, cnt)
 				binary.BigEndian.PutUint16(c[4:], uint16(g.randUint()))
 				out = append(out, c...)
